@@ -7,6 +7,7 @@ import (
 	"reflect"
 	"strconv"
 	"strings"
+	"sync"
 
 	"pault.ag/go/debian/control"
 	"pault.ag/go/debian/deb"
@@ -51,6 +52,35 @@ type ProbeEmbedded struct {
 	RenVer  version.Version `control:"X-Version"`
 }
 
+// the raw Paragraph embedded after / between the known fields
+type ProbeEmbeddedLast struct {
+	Foo     string
+	Renamed string   `control:"X-Renamed"`
+	RenList []string `control:"X-List" delim:","`
+	control.Paragraph
+	Bar  int
+	Long string `multiline:"true"`
+}
+
+// skipped members of kinds the codec does not support: they must stay untouched
+type ProbeSkipKinds struct {
+	Name  string
+	M     map[string]string `control:"-"`
+	Fn    func()            `control:"-"`
+	Fl    float64           `control:"-"`
+	Mu    sync.Mutex        `control:"-"`
+	Ch    chan int          `control:"-"`
+	After []string          `delim:","`
+}
+
+// plain structs embedded anonymously (the documented way to use BestChecksums)
+type ProbeAnon struct {
+	Name string
+	ProbeInner
+	control.BestChecksums
+	Tail string
+}
+
 type ProbeInner struct {
 	A string
 	B int
@@ -80,20 +110,23 @@ type ProbeBad2 struct {
 }
 
 var codecTypes = map[string]reflect.Type{
-	"ProbeBasic":      reflect.TypeOf(ProbeBasic{}),
-	"ProbeEmbedded":   reflect.TypeOf(ProbeEmbedded{}),
-	"ProbeNested":     reflect.TypeOf(ProbeNested{}),
-	"ProbeSparse":     reflect.TypeOf(ProbeSparse{}),
-	"ProbeBad":        reflect.TypeOf(ProbeBad{}),
-	"ProbeBad2":       reflect.TypeOf(ProbeBad2{}),
-	"DSC":             reflect.TypeOf(control.DSC{}),
-	"Changes":         reflect.TypeOf(control.Changes{}),
-	"SourceParagraph": reflect.TypeOf(control.SourceParagraph{}),
-	"BinaryParagraph": reflect.TypeOf(control.BinaryParagraph{}),
-	"BinaryIndex":     reflect.TypeOf(control.BinaryIndex{}),
-	"SourceIndex":     reflect.TypeOf(control.SourceIndex{}),
-	"BestChecksums":   reflect.TypeOf(control.BestChecksums{}),
-	"DebControl":      reflect.TypeOf(deb.Control{}),
+	"ProbeBasic":        reflect.TypeOf(ProbeBasic{}),
+	"ProbeEmbedded":     reflect.TypeOf(ProbeEmbedded{}),
+	"ProbeNested":       reflect.TypeOf(ProbeNested{}),
+	"ProbeSparse":       reflect.TypeOf(ProbeSparse{}),
+	"ProbeEmbeddedLast": reflect.TypeOf(ProbeEmbeddedLast{}),
+	"ProbeSkipKinds":    reflect.TypeOf(ProbeSkipKinds{}),
+	"ProbeAnon":         reflect.TypeOf(ProbeAnon{}),
+	"ProbeBad":          reflect.TypeOf(ProbeBad{}),
+	"ProbeBad2":         reflect.TypeOf(ProbeBad2{}),
+	"DSC":               reflect.TypeOf(control.DSC{}),
+	"Changes":           reflect.TypeOf(control.Changes{}),
+	"SourceParagraph":   reflect.TypeOf(control.SourceParagraph{}),
+	"BinaryParagraph":   reflect.TypeOf(control.BinaryParagraph{}),
+	"BinaryIndex":       reflect.TypeOf(control.BinaryIndex{}),
+	"SourceIndex":       reflect.TypeOf(control.SourceIndex{}),
+	"BestChecksums":     reflect.TypeOf(control.BestChecksums{}),
+	"DebControl":        reflect.TypeOf(deb.Control{}),
 }
 
 var (
@@ -303,20 +336,56 @@ func codecArgs(a []string) (reflect.Type, []string) {
 }
 
 // encodeSequence writes n records of one type through a single Encoder
-func encodeSequence(a []string) (string, error) {
+func encodeSequence(a []string) (string, error) { return encodeSequenceGrouped(a, 0) }
+
+// encodeSequenceGrouped writes the records through one Encoder. grouping 0: one Encode call
+// per struct; 1: all of them as one slice; 2: a struct, then the rest as a slice; 3: slices of
+// two. What is written must not depend on the grouping.
+func encodeSequenceGrouped(a []string, grouping int) (string, error) {
 	t, rest := codecArgs(a)
 	n, _ := strconv.Atoi(rest[0])
 	tr := &tokReader{ts: rest[1:]}
 	var buf bytes.Buffer
 	enc, _ := control.NewEncoder(&buf)
+	var recs []reflect.Value
 	for i := 0; i < n; i++ {
 		v := reflect.New(t).Elem()
 		readGoRecord(v, tr)
-		if err := enc.Encode(v.Addr().Interface()); err != nil {
-			return "", err
+		recs = append(recs, v)
+	}
+	flush := func(group []reflect.Value, asSlice bool) error {
+		if !asSlice {
+			for _, v := range group {
+				if err := enc.Encode(v.Addr().Interface()); err != nil {
+					return err
+				}
+			}
+			return nil
+		}
+		sl := reflect.MakeSlice(reflect.SliceOf(t), 0, len(group))
+		for _, v := range group {
+			sl = reflect.Append(sl, v)
+		}
+		return enc.Encode(sl.Interface())
+	}
+	var err error
+	switch grouping {
+	case 0:
+		err = flush(recs, false)
+	case 1:
+		err = flush(recs, true)
+	case 2:
+		if len(recs) > 0 {
+			if err = flush(recs[:1], false); err == nil {
+				err = flush(recs[1:], true)
+			}
+		}
+	default:
+		for i := 0; i < len(recs) && err == nil; i += 2 {
+			err = flush(recs[i:min(i+2, len(recs))], true)
 		}
 	}
-	return buf.String(), nil
+	return buf.String(), err
 }
 
 // presentFieldsDiffer compares, field by field, a struct that was decoded into repeatedly
@@ -436,7 +505,7 @@ var codecImpl = map[string]core.Adapter{
 			if err := control.UnpackFromParagraph(p, v.Interface()); err != nil || dumpGoRecord(v.Elem()) != want[i] {
 				return fmt.Sprintf("FAIL UnpackFromParagraph paragraph %d: %s %v, want %s", i, dumpGoRecord(v.Elem()), err, want[i])
 			}
-			if t.Name() == "ProbeNested" {
+			if t.Name() == "ProbeNested" || t.Name() == "ProbeAnon" {
 				continue
 			}
 			m1, err1 := marshalGo(v.Elem())
@@ -476,6 +545,11 @@ var codecImpl = map[string]core.Adapter{
 		text, err := encodeSequence(a)
 		if err != nil {
 			return "FAIL encode: " + err.Error()
+		}
+		for grouping := 1; grouping <= 3; grouping++ {
+			if other, err := encodeSequenceGrouped(a, grouping); err != nil || other != text {
+				return fmt.Sprintf("FAIL the same records written as slices (grouping %d) give %q (%v), one by one %q", grouping, other, err, text)
+			}
 		}
 		t, rest := codecArgs(a)
 		n, _ := strconv.Atoi(rest[0])
@@ -524,6 +598,9 @@ var codecImpl = map[string]core.Adapter{
 		text, err := marshalGo(v)
 		if err != nil {
 			return "FAIL marshal: " + err.Error()
+		}
+		if text == "" {
+			return "ok" // only optional fields, all empty: nothing is written, there is nothing to read back
 		}
 		w := reflect.New(t)
 		if err := control.Unmarshal(w.Interface(), strings.NewReader(text)); err != nil {
@@ -781,13 +858,13 @@ func codecOp(op, typ string, rest ...string) (string, []string) {
 
 func streamCodec(g *core.G) {
 	r := g.R
-	probes := []string{"ProbeBasic", "ProbeEmbedded", "ProbeNested"}
+	probes := []string{"ProbeBasic", "ProbeEmbedded", "ProbeNested", "ProbeEmbeddedLast", "ProbeSkipKinds", "ProbeAnon"}
 	n := g.N(1200, 60000)
 	for i := 0; i < n; i++ {
 		typ := r.Pick(probes)
 		rec := genRecordTokens(r, codecTypes[typ])
 		for _, op := range []string{"codecm", "codecrt", "law-codecrt"} {
-			if op == "law-codecrt" && typ == "ProbeNested" {
+			if op == "law-codecrt" && (typ == "ProbeNested" || typ == "ProbeAnon") {
 				continue // plain nested structs are decodable but not marshallable: outside the claim
 			}
 			o, a := codecOp(op, typ, rec...)
@@ -864,13 +941,16 @@ func streamCodec(g *core.G) {
 		g.Emit(o, a...)
 		o, a = codecOp("codecus", typ, core.Hex(text))
 		g.Emit(o, a...)
-		if typ == "ProbeEmbedded" {
+		if typ == "ProbeEmbedded" || typ == "ProbeEmbeddedLast" {
 			// pass-through with edits of known fields
 			t := codecTypes[typ]
 			ne := r.Intn(3)
 			ed := []string{core.Hex(text), strconv.Itoa(ne)}
 			for k := 0; k < ne; k++ {
-				idx := 1 + r.Intn(t.NumField()-1)
+				idx := r.Intn(t.NumField())
+				for t.Field(idx).Anonymous {
+					idx = r.Intn(t.NumField())
+				}
 				ed = append(ed, strconv.Itoa(idx))
 				if r.Chance(1, 3) {
 					ed = append(ed, "z")
